@@ -46,7 +46,19 @@ OPS = [
     ("lock->try_lock", r"\.lock\(\)", ".try_lock()"), ("send->try_send", r"\.send\(", ".try_send("),
     ("delete_many->delete_one", r"\.delete_many\(", ".delete_one("), ("update_many->update_one", r"\.update_many\(", ".update_one("),
     ("else-if->if", r"\} else if ", "} if "),
+    # grammar / CLI / service specific
+    ("multispace0->space0", r"\bmultispace0\b", "space0"), ("many1->many0", r"\bmany1\(", "many0("), ("alphanumeric1->alpha1", r"\balphanumeric1\b", "alpha1"),
+    ("preceded->terminated", r"\bpreceded\(", "terminated("), ("terminated->preceded", r"\bterminated\(", "preceded("),
+    ("Formula-variant", r"Formula::And\(", "Formula::Or("), ("Formula-variant2", r"Formula::Imp\(", "Formula::Iff("), ("Formula-variant3", r"Formula::Xor\(", "Formula::Iff("),
+    ("grounded->complete-flag", r"\bself\.grounded\b", "self.complete"), ("stable->complete-flag", r"\bself\.stable\b", "self.complete"),
+    ("lexi->alphanum", r"varsort_lexi\(", "varsort_alphanum("), ("is_ok->is_err", r"\.is_ok\(\)", ".is_err()"), ("is_some->is_none", r"\.is_some\(\)", ".is_none()"),
+    ("is_none->is_some", r"\.is_none\(\)", ".is_some()"), ("Ok-arm->Err", r"\bOk\(_\) =>", "Err(_) =>"),
+    ("unwrap_or-default", r"\.unwrap_or\(false\)", ".unwrap_or(true)"),
+    ("find_one->find_one-nofilter", r"doc! \{ \"username\": ", "doc! { \"name\": "),
+    ("iter->iter-rev", r"\.iter\(\)\.enumerate\(\)", ".iter().rev().enumerate()"),
+    ("skip1", r"\.into_iter\(\)", ".into_iter().skip(1)"),
 ]
+MASK_STRINGS_EXCEPT = ("find_one->find_one-nofilter",)
 STMT_DROP = re.compile(r"^\s*[\w.\[\]*&()]+\.(push|insert|remove|retain|clear|append|extend|send|sort\w*|fix_import|regenerate_indizes|seed|add_ng|pop)\(.*\);\s*$")
 
 
@@ -87,7 +99,7 @@ def gen(files, out):
                 # do not touch string literals: mask them
                 masked = re.sub(r'"(\\.|[^"\\])*"', lambda m: '"' + "\x00" * (len(m.group(0)) - 2) + '"', code)
                 for name, rx, repl in OPS:
-                    for m in re.finditer(rx, masked):
+                    for m in re.finditer(rx, code if name in MASK_STRINGS_EXCEPT else masked):
                         new = code[:m.start()] + re.sub(rx, repl, code[m.start():m.end()]) + code[m.end():] + text[len(code):]
                         if new == text:
                             continue
@@ -164,7 +176,7 @@ PROPS_FOR = {
 def run(args):
     scratch = args.scratch
     os.makedirs(scratch, exist_ok=True)
-    muts = [json.loads(l) for l in open(os.path.join(scratch, "mutants.jsonl"))]
+    muts = [json.loads(l) for l in open(os.path.join(scratch, args.mutants))]
     done = set()
     res_path = os.path.join(scratch, "results.jsonl")
     if os.path.exists(res_path):
@@ -281,12 +293,13 @@ def main():
     ap.add_argument("--files", nargs="*", default=DEFAULT_FILES)
     ap.add_argument("--workers", type=int, default=4)
     ap.add_argument("--limit", type=int, default=0)
+    ap.add_argument("--mutants", default="mutants.jsonl")
     ap.add_argument("--match", nargs="*", default=[])
     ap.add_argument("--reported", action="store_true", help="triage: also run the oracle on reported mutants (reported + oracle-pass = candidate false alarm)")
     a = ap.parse_args()
     os.makedirs(a.scratch, exist_ok=True)
     if a.cmd == "gen":
-        gen(a.files, os.path.join(a.scratch, "mutants.jsonl"))
+        gen(a.files, os.path.join(a.scratch, a.mutants))
     elif a.cmd == "run":
         run(a)
     elif a.cmd == "triage":
